@@ -639,6 +639,8 @@ def adversary_scenarios(chk, n, tag):
                 "advdial 8 2 sni=n%d" % name, "sleep 500", "peers 2",
                 "connect 2 8", "sleep 300", "peers 2",
                 "connect 2 8 pin=1", "sleep 300", "peers 2",
+                # an honest third party at whose address identity 1 is then expected: two dials to one address
+                "node 3 key=%d name=n%d" % (V + 2, name), "connect 2 3 pin=3", "sleep 300", "connect 2 3 pin=1", "sleep 300", "peers 2",
                 "rpc 2 1 id=probe size=10",
                 "connect 2 1", "sleep 300", "peers 2", "rpc 2 1 id=real size=10", "log 1",
                 "events 2"]
@@ -656,9 +658,11 @@ def adversary_scenarios(chk, n, tag):
             r.setdefault(c, []).append(x)
         peers = r["peers 2"]
         # never listed, announced or attributed as node 1 before the real node 1 is connected
-        for k, l in enumerate(peers[:3]):
+        for k, l in enumerate(peers[:4]):
             if "1" in l.strip("[]").split(","):
-                chk.monitor_fail("[%s] the adversary was listed as identity 1 at node 2 (step %d)" % (label, k), dict(case=sc, impl=o[:1200]))
+                chk.monitor_fail("[%s] %s was listed as identity 1 at node 2 (step %d)" % (label, "the adversary" if k < 3 else "another party", k), dict(case=sc, impl=o[:1200]))
+        if r["connect 2 3 pin=1"][0].startswith("ok") or not r["connect 2 3 pin=3"][0].startswith("ok 3"):
+            chk.monitor_fail("[%s] dials to node 3's address: pinned to 3 -> %s, then pinned to 1 -> %s" % (label, r["connect 2 3 pin=3"][0][:40], r["connect 2 3 pin=1"][0][:40]), dict(case=sc, impl=o[:1200]))
         if r["connect 2 8 pin=1"][0].startswith("ok"):
             chk.monitor_fail("[%s] a dial pinned to identity 1 succeeded against the adversary" % label, dict(case=sc, impl=o[:1200]))
         if r["connect 2 8"][0].startswith("ok 1"):
@@ -758,8 +762,12 @@ def c02(chk):
             link += " dup=%d" % rng.choice([50, 200])
         if faults in ("loss", "all"):
             link += " loss=%d" % rng.choice([10, 30])
+        # in a third of the scenarios both nodes have a frame limit and some responses exceed it: the responder
+        # fails after its handler ran (the stream is reset); the caller must get an error, never a second delivery
+        limit = rng.choice([20000, 100000]) if rng.random() < 0.35 else None
+        mf = " maxframe=%d" % limit if limit else ""
         cmds = ["seed=%d %s" % (rng.randrange(1 << 30), link),
-                "node 0 idle=60000 keepalive=5000", "node 1 idle=60000 keepalive=5000", "connect 0 1", "sleep 500"]
+                "node 0 idle=60000 keepalive=5000" + mf, "node 1 idle=60000 keepalive=5000" + mf, "connect 0 1", "sleep 500"]
         k = rng.choice([1, 4, 16, 64]) if quick else rng.choice([1, 8, 32, 64, 128])
         rpcs = []
         big = 0
@@ -775,6 +783,10 @@ def c02(chk):
             if rng.random() < 0.3:
                 rs = rng.choice([0, 1, 777, 70000])
                 args += " resp-size=%d" % rs
+            elif limit and rng.random() < 0.3:
+                rs = limit + rng.choice([1, 5000])
+                size = min(size, 3000)
+                args = "id=%s size=%d resp-size=%d" % (rid, size, rs)
             if rng.random() < 0.5:
                 args += " sleep-ms=%d" % rng.choice([1, 5, 20, 100, 400])
             if rng.random() < 0.2:
@@ -785,9 +797,9 @@ def c02(chk):
             cmds.append("join %s 300000" % rid)
         cmds += ["log 0", "log 1", "peers 0"]
         scen.append("simnet " + " ; ".join(cmds))
-        metas.append((rpcs, faults))
+        metas.append((rpcs, faults, limit))
     outs, parsed = run_scenarios(chk, scen, "fabric:rpc")
-    for sc, o, res, (rpcs, faults) in zip(scen, outs, parsed, metas):
+    for sc, o, res, (rpcs, faults, limit) in zip(scen, outs, parsed, metas):
         if res is None:
             continue
         chk.nontriv(sc)
@@ -809,8 +821,10 @@ def c02(chk):
             elif out == "HANG":
                 chk.monitor_fail("RPC %s neither returned nor failed" % rid, dict(case=sc))
             else:
-                # an error is acceptable only under datagram loss
-                if faults not in ("loss", "all"):
+                # an error is acceptable only under datagram loss, or when the request / response exceeds the frame limit
+                oversize = limit is not None and (size > limit or (rs if rs is not None else size) > limit)
+                chk.count("rpc-error:" + ("frame-limit" if oversize else "loss"))
+                if faults not in ("loss", "all") and not oversize:
                     chk.monitor_fail("RPC %s failed on a loss-free link: %s" % (rid, out[:100]), dict(case=sc))
         for node in (0, 1):
             seen = {}
@@ -916,6 +930,14 @@ def c06(chk):
                 "adv 8 k=7 names=n10", "advdial 8 1 sni=n10", "connect 2 1", "sleep 300",
                 "bg slow rpc 2 1 id=slow size=1000 sleep-ms=2000"]
         ops = []
+        if i == 0:
+            # systematic part: well-formed requests whose `timeout` (and one arbitrary) header holds a multi-byte
+            # character straddling each of the byte offsets a careless truncation would pick
+            for off in (4, 8, 16, 24, 32, 48, 64, 100, 128, 255, 256, 512, 1024):
+                for ch in ("\u00e9", "\u20ac", "\U0001F600"):
+                    for back in range(1, len(ch.encode())):
+                        v = ("1" * (off - back) + ch * 3).encode()
+                        ops.append("advop 8 1 bi:%s:finish" % req_bytes(b"/echo", [(b"id", b"adv"), (b"timeout", v), (b"x-note", v)], b"hello").hex())
         for j in range(rng.randrange(4, 30)):
             r = rng.random()
             if r < 0.2:
@@ -930,6 +952,19 @@ def c06(chk):
                 data = b"anemo\x00\x01\x00" + rng.choice([b"\xff\xff\xff\xff", b"\x7f\xff\xff\xff", b"\x00\x80\x00\x01"]) + rng.randbytes(20)
             elif r < 0.75:
                 data = b"anemo\x00\x01\x00" + b"\x00\x00\x00\x18" + b"\xff" * 8 + rng.randbytes(16)   # absurd string length
+            elif r < 0.9:
+                # well-formed requests whose header values are hostile: the headers the library itself interprets
+                # (timeout) and arbitrary ones, with long / non-numeric / non-ASCII text, multi-byte characters at every offset
+                def nasty():
+                    k = rng.randrange(0, 70)
+                    return rng.choice([
+                        "1" * k + "\u00e9" * rng.randrange(1, 12), "\u00e9" * k, "\U0001F600" * rng.randrange(1, 20), "9" * k, "-" + "1" * k, " " * k,
+                        "1" * k + "\u20ac" + "x" * rng.randrange(0, 40), "\x00" * k, "18446744073709551616", "1e9", "+5", "0x10", ""]).encode()
+                hs = [(b"id", b"adv")]
+                for _ in range(rng.randrange(1, 4)):
+                    hs.append((rng.choice([b"timeout", b"timeout", b"status-message", b"content-type", b"x-" + nasty()[:20]]), nasty()))
+                hs = list(dict(hs).items())
+                data = req_bytes(rng.choice([b"/echo", b"/echo", b"/none", nasty()[:40]]), hs, b"hello")
             else:
                 data = valid
             kind = rng.random()
